@@ -121,6 +121,34 @@ pub fn c17(opts: &Opts, out: &mut Out) {
         out.req(format!("ctor kind=witness rlens={}", nlist(s)), okerr(r.is_ok()));
         n_eval += 1;
     }
+    // counts far outside the domain (a count that only looks valid after a narrowing conversion: 256 + d, 65536 + d)
+    for big in [9usize, 255, 256, 257, 258, 262, 263, 512, 513, 65536 + 2] {
+        for nops in [1usize, 2] {
+            let s: Vec<usize> = vec![big; nops];
+            let ops: Vec<CommitmentOpening> = s.iter().enumerate().map(|(i, r)| CommitmentOpening::new(i as u64, vec![Scalar::from(3u8); *r])).collect();
+            let r = std::panic::catch_unwind(|| RangeWitness::init(ops.clone()));
+            let key = format!("witness rlens={}x{}", big, nops);
+            match r {
+                Err(_) => out.oracle("C17:no-panic", false, &key, "constructor panicked"),
+                Ok(r) => {
+                    out.oracle("C17:witness-domain", r.is_err(), &key, &format!("a witness with {} blinding factors per opening was accepted (degree {:?})", big, r.as_ref().ok().map(|w| w.extension_degree as usize)));
+                    out.req(format!("ctor kind=witness rlens={}", nlist(&s)), okerr(r.is_ok()));
+                },
+            }
+            n_eval += 1;
+        }
+        for d in [1usize, 2, 6] {
+            let r = ExtendedMask::assign(fmrun::deg(d), vec![Scalar::from(2u8); big]);
+            out.oracle("C17:mask-domain", r.is_err(), &format!("mask deg={} len={}", d, big), "domain");
+            let pg = fm_pedersen(fmrun::deg(d));
+            let bl = vec![Scalar::from(2u8); big];
+            match std::panic::catch_unwind(|| pg.commit(&Scalar::from(7u8), &bl)) {
+                Ok(r) => out.oracle("C17:commit-domain", r.is_err(), &format!("commit deg={} nb={}", d, big), "domain"),
+                Err(_) => out.oracle("C17:no-panic", false, &format!("commit deg={} nb={}", d, big), "commit panicked"),
+            }
+            n_eval += 2;
+        }
+    }
     // masks and commitments: degree x length 0..=8
     for d in 1..=6usize {
         for len in 0..=8usize {
